@@ -8,7 +8,8 @@ MODELS = ["wire"]
 BINS = {"release": ["wire"]}
 RULE = ("cases = (kind, text) lines run through the real jsonrpsee-types parsers/serialisers and through the extracted "
         "Coq model; generated from: well-formed serialisations over all id forms/payloads, all orders/subsets/duplications "
-        "of response members (<=5) with value variants, structural mutations, byte mutations, deep nesting; plus the "
+        "of response members (<=5) with value variants, structural mutations, byte mutations, deep nesting, the SEQUENCE "
+        "forms of every derived struct (right/short/long, null and wrong types per slot, nested, each text to every reader); plus the "
         "2^32 error-code sweep (counted as one evaluation).  distinct non-trivial = distinct result lines that are not "
         "the reject line '-'")
 TRUSTED = [
@@ -16,7 +17,7 @@ TRUSTED = [
     "modelled, not verified: serde/serde_json parsing, formatting and derive semantics (Json/*.v, Model/Wire.v), tied by the differential run only",
 ]
 ASSUMPTIONS = [
-    "serde's derived visitors also accept the SEQUENCE form of a struct (e.g. [\"2.0\",1,\"m\",null] as a Request); Model/Wire.v models the map form only: the server applies these readers only to texts starting with '{' (single messages by the sniffer, batch entries since the C02 repair) and the generators never feed arrays to the req/notif/inv/sub readers",
+    "sequence forms (serde visit_seq) ARE modelled: Model/Wire.v de_struct dispatches on the first non-whitespace byte ('{' -> map reader, '[' -> sequence reader) for every derived struct -- ErrorObject [code,message,data], Request [jsonrpc,id,method,params], Notification [jsonrpc,method,params], InvalidRequest [id], SubscriptionPayload [subscription,result], SubscriptionPayloadError [subscription,error] -- with exactly as many elements as non-skipped fields, `null` = None in Option slots, nested in either form; Response (hand-written visitor, visit_map only) never reads an array.  The generators feed sequence-form texts (right length / too short / too long / null and wrong types in every slot / nested) to every reader.  Still not modelled: serde_json's recursion limit applied to the struct nesting itself (at most two levels deep here), and which error message a rejected text gets (a reject is the line '-')",
     "Option<RawValue> members (params, data) cannot carry the text `null` (it denotes absence); round-trip is stated on the parser's image",
     "floats are carried as lexemes, never interpreted; out-of-range float literals (1e999) are outside the generators",
 ]
@@ -138,12 +139,145 @@ def gen_cases(ctx):
         t = obj(outer)
         add("subn", t, "subnotif")
         add("sube", t, "subnotif")
+    # ---- sequence forms of the derived structs (serde visit_seq): right length, too short, too long, `null` in every slot,
+    #      wrong element types, nested sequence forms; every text goes to every struct reader
+    def arr(items, wsp=0.15):
+        return b"[" + b",".join(G.ws(rng, wsp) + it + G.ws(rng, wsp) for it in items) + b"]"
+
+    def f_two():
+        return rng.choice([b'"2.0"'] * 14 + [b'"2\\u002e0"', b'"1.0"', b"2.0", b"null", b'"2.0 "'])
+
+    def f_id():
+        return G.id_text(rng)
+
+    def f_method():
+        return rng.choice([G.string(rng)] * 5 + [b'"m"', b'"ev1"', b"1", b"null", b'["m"]'])
+
+    def f_opt():   # Option<RawValue> slot
+        return rng.choice([G.value(rng, 2, lenient=rng.random() < 0.2)] * 4 + [b"null", b"null", b"[]", b"{}", b" null", b"nul", b"[null]"])
+
+    def f_code():
+        c = rng.choice([0, 1, -1, -32700, -32600, -32000, -32009, 2**31 - 1, -2**31, 2**31, -2**31 - 1, 7])
+        return str(c).encode() if rng.random() < 0.85 else rng.choice([b"1.0", b'"1"', b"null", b"-0", b"[1]", b"1e2"])
+
+    def f_msg():
+        return G.string(rng) if rng.random() < 0.85 else rng.choice([b"1", b"null", b'["m"]'])
+
+    def f_sid():
+        return rng.choice([b"1", b"0", b'"s"', G.string(rng), b"18446744073709551615"] * 3 + [b"null", b"1.5", b"18446744073709551616", b"[1]"])
+
+    def f_raw():
+        return G.value(rng, 2, lenient=rng.random() < 0.2)
+
+    SLOTS = {"req": [f_two, f_id, f_method, f_opt], "notif": [f_two, f_method, f_opt], "inv": [f_id],
+             "err": [f_code, f_msg, f_opt], "pay": [f_sid, f_raw]}
+
+    def seq_fields(kind):
+        """field texts of one sequence form + the name of the variation applied"""
+        fs = [f() for f in SLOTS[kind]]
+        r = rng.random()
+        if r < 0.45:
+            return fs, "exact"
+        if r < 0.55:
+            return fs[:-1], "short"                       # missing trailing (Option) field
+        if r < 0.60:
+            del fs[rng.randrange(len(fs))]
+            return fs, "short"
+        if r < 0.70:
+            return fs + [rng.choice([b"null", b"1", b"{}", f_raw()])], "long"
+        if r < 0.75:
+            return fs + [b"null"] * rng.randint(2, 3), "long"
+        if r < 0.83:
+            fs[rng.randrange(len(fs))] = b"null"          # null in a slot (None only where the field is an Option)
+            return fs, "null-slot"
+        if r < 0.91 and len(fs) > 1:
+            i, j = rng.sample(range(len(fs)), 2)           # wrong element types
+            fs[i], fs[j] = fs[j], fs[i]
+            return fs, "swapped"
+        if r < 0.95:
+            return [], "empty"
+        return [arr(fs)], "wrapped"                        # the whole struct one level too deep
+
+    def payload_text(key):
+        """SubscriptionPayload / SubscriptionPayloadError in map or sequence form"""
+        if rng.random() < 0.5:
+            fs, var = seq_fields("pay")
+            return arr(fs), "pseq-" + var
+        inner = [(b'"subscription"', f_sid()), (key, f_raw())]
+        if rng.random() < 0.15:
+            inner.append(rng.choice(inner + [(b'"z"', b"0")]))
+        rng.shuffle(inner)
+        return obj(inner), "pobj"
+
+    ALL_READERS = ("req", "notif", "inv", "resp", "err", "subn", "sube")
+
+    def add_seq(t, home, tag):
+        t = G.ws(rng) + t + G.ws(rng)
+        if rng.random() < 0.06:
+            t = G.mutate_bytes(rng, t)
+            tag += "-mut"
+        for k2 in ALL_READERS:
+            if k2 == home or rng.random() < 0.3:
+                add(k2, t, tag)
+
+    nseq = ctx.scale(1200, 30000)
+    for _ in range(nseq):
+        for kind in ("req", "notif", "inv", "err"):
+            fs, var = seq_fields(kind)
+            add_seq(arr(fs), kind, "seq-%s-%s" % (kind, var))
+        # a response whose error member is a sequence-form ErrorObject (the only place a Response meets a sequence form)
+        fs, var = seq_fields("err")
+        ms = [(b'"jsonrpc"', f_two()), (b'"id"', G.id_text(rng)), (b'"error"', arr(fs))]
+        if rng.random() < 0.1:
+            ms.append((b'"result"', b"1"))
+        rng.shuffle(ms)
+        add_seq(obj(ms), "resp", "seq-resp-error-" + var)
+        # subscription notifications: Notification in map / sequence form x payload in map / sequence form
+        key = rng.choice([b'"result"', b'"error"'])
+        ptxt, pvar = payload_text(key)
+        if rng.random() < 0.5:
+            outer = [(b'"jsonrpc"', f_two()), (b'"method"', f_method()), (b'"params"', ptxt)]
+            if rng.random() < 0.08:
+                outer.pop(rng.randrange(3))
+            rng.shuffle(outer)
+            t, tag = obj(outer), "seq-sub-oobj-" + pvar
+        else:
+            fs = [f_two(), f_method(), ptxt]
+            r = rng.random()
+            ovar = "exact"
+            if r < 0.08:
+                fs, ovar = fs[:-1], "short"
+            elif r < 0.16:
+                fs, ovar = fs + [rng.choice([b"null", b"{}"])], "long"
+            elif r < 0.22:
+                i, j = rng.sample(range(3), 2)
+                fs[i], fs[j] = fs[j], fs[i]
+                ovar = "swapped"
+            t, tag = arr(fs), "seq-sub-oseq-%s-%s" % (ovar, pvar)
+        t = G.ws(rng) + t + G.ws(rng)
+        if rng.random() < 0.05:
+            t = G.mutate_bytes(rng, t)
+        for k2 in ("subn", "sube", "notif", "req", "resp"):
+            if k2 in ("subn", "sube") or rng.random() < 0.3:
+                add(k2, t, tag)
+    # the frames measured by hand (kept as fixed cases: they document what serde does)
+    FIXED = [b'[-32000,"boom",null]', b'[-32000,"boom"]', b'[-32000,"boom",null,1]', b'[-32000,"boom",{"a":1}]', b"[]", b"[[]]",
+             b'{"jsonrpc":"2.0","id":0,"error":[-32000,"boom",null]}', b'{"jsonrpc":"2.0","id":0,"error":[-32000,"boom"]}',
+             b'["2.0",5,1]', b'[null,{"x":1},1]', b'["2.0",5,"echo",[1]]', b'["2.0",5,"echo",null]', b'["2.0",5,"echo"]',
+             b'["2.0",5,"echo",[1],{}]', b'["2.0","alpha",[7]]', b'["2.0","alpha",null]', b'["2.0","alpha"]', b'[1]', b'[null]', b'[1,2]',
+             b'{"jsonrpc":"2.0","method":"ev1","params":[1,5]}', b'["2.0","ev1",{"subscription":1,"result":5}]', b'["2.0","ev1",[1,5]]',
+             b'["2.0","ev1",[1,5,6]]', b'["2.0","ev1",[1]]', b'["2.0","ev1",[1,null]]', b'["2.0","ev1",{"subscription":1,"error":5}]',
+             b'["2.0","ev1",{"subscription":1,"result":5},null]', b'[null,"ev1",[1,5]]', b'[1,"m",1,', b'[1,"m",1,]', b'[1,"m",1 2]',
+             b'[1,"m",]', b'[,1,"m",1]', b'[1,"m",1]x', b'[1,"m","\xff"]']
+    for t in FIXED:
+        for k2 in ALL_READERS:
+            add(k2, t, "seq-fixed")
     # ---- exhaustive: response members, all subsets / orders / one duplication, with value variants
     variants = {
         "jsonrpc": [b'"2.0"', b"null", b'"1.0"'],
         "id": [b"1", b"null", b'"a"', b"1.5"],
         "result": [b"null", b"[1, 2]"],
-        "error": [b'{"code":-32000,"message":"m"}', b'{"code":1}', b"null"],
+        "error": [b'{"code":-32000,"message":"m"}', b'{"code":1}', b"null", b'[-32000,"m",null]', b'[-32000,"m"]'],
         "zz": [b"{}"],
     }
     names = list(variants)
@@ -192,6 +326,10 @@ def expected_resp_accept(text):
         return False
     if cnt("error") == 1:
         e = get("error")
+        if isinstance(e, list):
+            # ErrorObject is a derived struct: serde also reads its sequence form [code, message, data], all three present
+            return (len(e) == 3 and isint(e[0]) and e[0][1] != "-0" and -2**31 <= int(e[0][1]) < 2**31
+                    and isinstance(e[1], str))
         if not (isinstance(e, tuple) and e[0] == "obj"):
             return False
         em = e[1]
